@@ -40,8 +40,14 @@ package supervisor
 //@   inv forall k string :: has(s.processMap, k) ==> s.processMap[k].pid > 0
 
 // Exec: a process of the runtime domain is started once, recorded under its name, and gets exactly one waiter goroutine
+// os/exec: for an output writer that is not an *os.File the Cmd copies the output in a goroutine of its own and Wait returns only when
+// that copy has ended; WaitDelay bounds how long the pipe stays open, not a Write that does not return. C19 ("exactly one
+// termination event", "Kill succeeds for a process that already exited") then depends on the writer: the process is started with
+// writers os/exec does not have to copy for (nil or a file)
+//@ event ProcStartedWithOutputCopiedByWait = call os/exec.(*Cmd).Start when (a0.Stdout != nil && !typeis(a0.Stdout, *os.File)) || (a0.Stderr != nil && !typeis(a0.Stderr, *os.File))
 //@ func (*LocalSupervisor).Exec
 //@   requires req != nil
+//@   ensures [C19: the-termination-event-does-not-wait-for-the-copy-of-the-output] delta(ProcStartedWithOutputCopiedByWait) == 0
 //@   ensures [C19: the-termination-event-does-not-wait-for-whoever-inherited-the-output] delta(ProcStartedWithUnboundedOutputWait) == 0
 //@   ensures [other-domains-are-a-no-op] req.Domain != "runtime" ==> r0 == nil && delta(ProcStart) == 0 && delta(WaiterSpawned) == 0
 //@   ensures [C19: only-the-waiter-closes-the-termination-channel] delta(TerminationClosed) == 0 && delta(TerminationSentOn) == 0 && delta(TerminationFieldClosed) == 0 && delta(TerminationFieldSentOn) == 0
